@@ -413,30 +413,41 @@ func c06e(c *Ctx) {
 	}
 	c.requireGate(f.Name+" note verified", f, opens, OutNil, okRets, "success only after note.Open verified the note")
 	// the RFC 6962 signature found
+	// the flag that records "a verified signature carries the log verifier's key hash": a bool set to
+	// true only on the edge where a signature's Hash equals v1.KeyHash() (switch or if form, the key
+	// hash possibly held in a variable first)
 	var foundObj types.Object
-	for _, s := range f.Find(func(n ast.Node) bool { _, ok := n.(*ast.CaseClause); return ok }) {
-		_ = s
-	}
-	ast.Inspect(f.Body, func(n ast.Node) bool {
-		cc, ok := n.(*ast.CaseClause)
-		if !ok {
-			return true
+	isSigHash := func(e ast.Expr) bool {
+		sel, ok := ast.Unparen(e).(*ast.SelectorExpr)
+		if !ok || sel.Sel.Name != "Hash" {
+			return false
 		}
-		for _, e := range cc.List {
-			if call, ok := ast.Unparen(e).(*ast.CallExpr); ok {
-				if sel, ok := ast.Unparen(call.Fun).(*ast.SelectorExpr); ok && sel.Sel.Name == "KeyHash" && objOf(info, sel.X) == v1 {
-					for _, st := range cc.Body {
-						if a, ok := st.(*ast.AssignStmt); ok && len(a.Lhs) == 1 && len(a.Rhs) == 1 {
-							if b, isB := constBool(info, a.Rhs[0]); isB && b {
-								foundObj = objOf(info, a.Lhs[0])
-							}
-						}
-					}
-				}
+		tv, has := info.Types[sel.X]
+		return has && namedIs(tv.Type, pkgNote, "Signature")
+	}
+	isV1Hash := func(e ast.Expr) bool {
+		call, ok := ast.Unparen(f.ResolveDeep(e).E).(*ast.CallExpr)
+		if !ok {
+			return false
+		}
+		sel, ok := ast.Unparen(call.Fun).(*ast.SelectorExpr)
+		return ok && sel.Sel.Name == "KeyHash" && objOf(info, sel.X) == v1 && v1 != nil
+	}
+	hashEq := g.EdgesImplying(func(a Atom) bool { rel, ok := cmpRel(a, isSigHash, isV1Hash); return ok && rel == relEQ })
+	if len(hashEq) > 0 {
+		for _, st := range f.Find(func(n ast.Node) bool {
+			a, ok := n.(*ast.AssignStmt)
+			if !ok || len(a.Lhs) != 1 || len(a.Rhs) != 1 {
+				return false
+			}
+			b, isB := constBool(info, a.Rhs[0])
+			return isB && b
+		}) {
+			if pt, _ := g.ReachableFromEntry(Cut{Edges: hashEq}, atSite(st)); pt == nil {
+				foundObj = objOf(info, st.X.(*ast.AssignStmt).Lhs[0])
 			}
 		}
-		return true
-	})
+	}
 	if foundObj == nil {
 		c.Bad(f.Name+" log signature present", okRets[0].Pos(), "success does not depend on the log's own RFC 6962 signature being among the verified signatures")
 	} else {
